@@ -206,11 +206,19 @@ Proof.
   eapply ok_from_no_main; eauto.
 Qed.
 
+Lemma last_cons_default : forall {A} (v : list A) a d d', last (a :: v) d = last (a :: v) d'.
+Proof.
+  induction v as [|y v IH]; intros a d d'; [reflexivity|].
+  change (last (a :: y :: v) d) with (last (y :: v) d).
+  change (last (a :: y :: v) d') with (last (y :: v) d'). apply IH.
+Qed.
+
 Lemma last_app2 : forall {A} (u v : list A) d, last (u ++ v) d = last v (last u d).
 Proof.
   induction u as [|x u IH]; intros v d; [reflexivity|].
   destruct u as [|y u].
-  - cbn. destruct v; reflexivity.
+  - destruct v as [|a v]; [reflexivity|].
+    change (last ([x] ++ a :: v) d) with (last (a :: v) d). apply last_cons_default.
   - change ((x :: y :: u) ++ v) with (x :: (y :: u) ++ v).
     change (last (x :: (y :: u) ++ v) d) with (last ((y :: u) ++ v) d).
     change (last (x :: y :: u) d) with (last (y :: u) d). apply IH.
@@ -220,7 +228,8 @@ Lemma ok_by_app : forall R u v p, ok_by R p (u ++ v) = ok_by R p u && ok_by R (l
 Proof.
   induction u as [|x u IH]; intros v p; [reflexivity|].
   cbn [app ok_by]. rewrite IH. rewrite <- andb_assoc. f_equal. f_equal.
-  destruct u; reflexivity.
+  destruct u as [|y u]; [reflexivity|].
+  change (last (x :: y :: u) p) with (last (y :: u) p). f_equal. apply last_cons_default.
 Qed.
 
 (* ---- the hierarchy of sections.rst as a language ----
